@@ -253,11 +253,31 @@ func VString(v *ast.Value) string { panic("ghost") }
 //@ loop 2 invariant[checked] a.Name != "Query" ==> forall(j, 0, it, forall(i, 0, len(a.Fields), a.Fields[i].Name == mf[j].Name ==> sameSig(a.Fields[i], mf[j]))) @using checked, prefix, spec, own, unique
 //@ end
 
+// C03: the list-valued parts of a shared definition are unions: nothing either side lists is lost
+// (that nothing new appears is not stated: the converse direction did not discharge)
+//@ define inStrings(l []string, x string) bool = exists(m, 0, len(l), l[m] == x)
+
+//@ func mergeInterfaces
+//@ props C03
+// (append(a, b...) may write into a's spare capacity: if b shared that array its elements would change under the copy)
+//@ assumes[no-alias] base(a) == 0 || base(a) != base(b)
+//@ ensures[a-kept] forall(i, 0, len(a), inStrings(result, a[i]))
+//@ ensures[b-kept] forall(i, 0, len(b), inStrings(result, b[i]))
+//@ ensures[fresh] base(result) == 0 || fresh(result)
+//@ modifies-assumed fresh
+//@ end
+
 //@ func mergeCustomObjects
 //@ props C05 C03
 //@ returns res, err
 //@ requires a != nil && b != nil
 //@ ensures[res] err == nil ==> res != nil
+//@ assumes[no-alias] base(a.Types) == 0 || base(a.Types) != base(b.Types)
+//@ ensures[interfaces-a-kept] err == nil ==> forall(i, 0, len(a.Interfaces), inStrings(res.Interfaces, old(a.Interfaces[i]))) @using a-kept, fresh @props C03
+//@ ensures[interfaces-b-kept] err == nil ==> forall(i, 0, len(b.Interfaces), inStrings(res.Interfaces, old(b.Interfaces[i]))) @using b-kept, fresh @props C03
+//@ ensures[members-a-kept] err == nil ==> forall(i, 0, len(a.Types), inStrings(res.Types, a.Types[i])) @props C03
+//@ ensures[members-b-kept] err == nil ==> forall(i, 0, len(b.Types), inStrings(res.Types, b.Types[i])) @props C03
+//@ ensures[kind-name] err == nil ==> res.Kind == a.Kind && res.Name == a.Name @props C03
 //@ modifies-assumed fresh
 //@ end
 
